@@ -46,12 +46,26 @@ func (s *Session) ExecQuery(q string) error {
 		fmt.Printf("created database %s\n\r", stmt.Name)
 		return nil
 	case sql.UseStatement:
-		var err error
-		s.CurDB = stmt.DBName
-		s.RelationService, err = storage.OpenRelation(stmt.DBName, true)
+		if s.RelationService != nil && strings.EqualFold(s.CurDB, stmt.DBName) {
+			// already selected: opening a second store on the same file would
+			// leave two flush timers writing two copies of the header
+			fmt.Printf("selected database %s\n\r", stmt.DBName)
+			return nil
+		}
+		rs, err := storage.OpenRelation(stmt.DBName, true)
 		if err != nil {
+			// the session keeps the database it had
 			return err
 		}
+		if prev := s.RelationService; prev != nil {
+			s.CurDB, s.RelationService = "", nil
+			if err := prev.Close(); err != nil {
+				rs.Close()
+				return err
+			}
+		}
+		s.CurDB = stmt.DBName
+		s.RelationService = rs
 		fmt.Printf("selected database %s\n\r", stmt.DBName)
 		return nil
 	case sql.ShowDatabase:
